@@ -3,7 +3,6 @@ package props
 import (
 	"fmt"
 	"os"
-	"time"
 	"testing"
 
 	"verif/harness/core"
@@ -83,10 +82,7 @@ func TestC17(t *testing.T) { core.Run(t, P17) }
 
 func TestC18(t *testing.T) { core.Run(t, P18) }
 
-func TestC02(t *testing.T) {
-	core.StartWatchdog(20 * time.Second)
-	core.RunWatched(t, P02)
-}
+func TestC02(t *testing.T) { core.RunWatched(t, P02) }
 
 func TestC14(t *testing.T) {
 	core.Extra("race_detector_enabled", RaceEnabled)
